@@ -124,9 +124,126 @@ func nCases(tier string) int {
 	cmpGrid = len(grid) * len(grid) * 9 * len(cmpGridOps)
 	canonBlock = len(canonGrid)*len(canonGrid)*len(canonBin) + len(canonGrid)*len(canonUn) + len(canonGrid)*len(canonGrid)*len(canonGrid)*4
 	if tier == "thorough" {
-		return gridPairs + cmpGrid + canonBlock + 600000
+		return gridPairs + cmpGrid + canonBlock + len(structBlock()) + 600000
 	}
-	return gridPairs + cmpGrid + canonBlock + 40000
+	return gridPairs + cmpGrid + canonBlock + len(structBlock()) + 40000
+}
+
+var structCases []Case
+
+// structBlock: operands placed on algebraic neighbourhoods that neither the
+// boundary grid nor uniformly random bits reach: perfect squares +-1 for every
+// root size (isqrt), dividends q*d+r with r around 0, d/2 and d for quotient
+// and divisor sizes around 2^24, 2^31, 2^53 and 2^63 (the division family),
+// factors whose product lands on 2^52..2^65 +- small (*), integers around the
+// float precision limits 2^24 and 2^53 against their float neighbours
+// (comparisons), and arguments with a large common factor (gcd/lcm). A result
+// computed through float64 or int64 shortcuts is wrong exactly there.
+func structBlock() []Case {
+	if structCases != nil {
+		return structCases
+	}
+	one := big.NewInt(1)
+	p := func(k uint) *big.Int { return new(big.Int).Lsh(one, k) }
+	mix := func(a, b int) uint64 { return rand.New(rand.NewPCG(uint64(a)*1000003+17, uint64(b)*7919+5)).Uint64() }
+	var out []Case
+	// isqrt
+	for b := 1; b <= 100; b++ {
+		ks := []*big.Int{new(big.Int).Sub(p(uint(b)), one), p(uint(b - 1)), new(big.Int).Add(p(uint(b-1)), one)}
+		nk := 3
+		if 20 <= b && b <= 40 { // roots whose squares straddle 2^53 and 2^63
+			nk = 24
+		}
+		for j := 0; j < nk; j++ {
+			k := new(big.Int).SetUint64(mix(b, j))
+			k.Lsh(k, 64).Or(k, new(big.Int).SetUint64(mix(b, j+100)))
+			k.Rsh(k, uint(k.BitLen()-b))
+			k.SetBit(k, b-1, 1)
+			ks = append(ks, k)
+		}
+		for _, k := range ks {
+			sq := new(big.Int).Mul(k, k)
+			for _, d := range []*big.Int{big.NewInt(-1), big.NewInt(0), one, k, new(big.Int).Lsh(k, 1)} {
+				n := new(big.Int).Add(sq, d)
+				if n.Sign() < 0 {
+					continue
+				}
+				out = append(out, Case{Op: "isqrt", Args: []string{n.String()}})
+			}
+		}
+	}
+	// division family
+	odd := func(x *big.Int, k int64) *big.Int { return new(big.Int).Add(x, big.NewInt(k)) }
+	qs := []*big.Int{one, big.NewInt(2), big.NewInt(5), odd(p(24), 1), odd(p(31), -1), p(32), odd(p(52), 1), odd(p(53), -1), odd(p(53), 1), odd(p(62), 1), odd(p(63), -1), p(63), odd(p(70), 3)}
+	ds := []*big.Int{one, big.NewInt(2), big.NewInt(3), big.NewInt(7), big.NewInt(10), odd(p(26), 1), p(31), odd(p(32), 1), odd(p(53), 1), p(63), odd(p(64), 3)}
+	for oi, op := range []string{"floor", "ceiling", "truncate", "round", "mod", "rem", "/"} {
+		for qi, q := range qs {
+			for di, d := range ds {
+				half := new(big.Int).Rsh(d, 1)
+				rs := []*big.Int{big.NewInt(0), one, big.NewInt(-1), half, odd(half, 1), odd(d, -1)}
+				for ri, rr := range rs {
+					a := new(big.Int).Mul(q, d)
+					a.Add(a, rr)
+					dd := new(big.Int).Set(d)
+					switch (oi + qi + di + ri) % 4 {
+					case 1:
+						a.Neg(a)
+					case 2:
+						dd.Neg(dd)
+					case 3:
+						a.Neg(a)
+						dd.Neg(dd)
+					}
+					out = append(out, Case{Op: op, Args: []string{a.String(), dd.String()}})
+				}
+			}
+		}
+	}
+	// products landing on the representation boundaries
+	for _, t := range []int{24, 52, 53, 54, 62, 63, 64, 65} {
+		for i := 1; i < t; i++ {
+			for e := 0; e < 9; e++ {
+				a, b := odd(p(uint(i)), int64(e/3-1)), odd(p(uint(t-i)), int64(e%3-1))
+				if (i+e)%2 == 0 {
+					a.Neg(a)
+				}
+				out = append(out, Case{Op: "*", Args: []string{a.String(), b.String()}})
+			}
+		}
+	}
+	// integers around the float precision limits against float neighbours
+	ten := func(k int64) *big.Int { return new(big.Int).Exp(big.NewInt(10), big.NewInt(k), nil) }
+	lim := []*big.Int{p(24), odd(p(24), 1), odd(p(24), -1), p(53), odd(p(53), 1), odd(p(53), -1), odd(p(53), 2), ten(15), odd(ten(16), 1), odd(ten(17), -1), odd(ten(22), 1)}
+	for _, x := range lim {
+		for _, y := range lim {
+			for v := 0; v < 9; v++ {
+				for oi, op := range cmpGridOps {
+					if (v+oi)%2 == 0 {
+						out = append(out, Case{Op: op, Args: []string{x.String(), floatVariant(y, v)}})
+					} else {
+						out = append(out, Case{Op: op, Args: []string{floatVariant(y, v), x.String()}})
+					}
+				}
+			}
+		}
+	}
+	// gcd / lcm with a common factor
+	for gi, g := range []*big.Int{big.NewInt(6), odd(p(31), -1), odd(p(32), 1), odd(p(53), 1), p(63), odd(p(64), 13), odd(p(90), 7)} {
+		for ai, a := range []*big.Int{big.NewInt(0), one, big.NewInt(4), big.NewInt(9), odd(p(31), 11), odd(p(62), 1), odd(p(64), 1)} {
+			for bi, b := range []*big.Int{one, big.NewInt(6), big.NewInt(35), odd(p(32), 15), odd(p(63), -1), odd(p(65), 1)} {
+				x, y := new(big.Int).Mul(a, g), new(big.Int).Mul(b, g)
+				if (gi+ai+bi)%3 == 1 {
+					x.Neg(x)
+				}
+				if (gi+ai+bi)%3 == 2 {
+					y.Neg(y)
+				}
+				out = append(out, Case{Op: "gcd", Args: []string{x.String(), y.String()}}, Case{Op: "lcm", Args: []string{x.String(), y.String()}})
+			}
+		}
+	}
+	structCases = out
+	return out
 }
 
 func randInt(r *rand.Rand) *big.Int {
@@ -250,6 +367,9 @@ func gen(r *rand.Rand, i int, tier string) Case {
 		op := []string{"+", "-", "*", "<"}[k/(n*n*n)]
 		return Case{Op: op, Args: []string{canonGrid[(k/(n*n))%n], canonGrid[(k/n)%n], canonGrid[k%n]}}
 	}
+	if sb := structBlock(); i < gridPairs+cmpGrid+canonBlock+len(sb) {
+		return sb[i-gridPairs-cmpGrid-canonBlock]
+	}
 	switch r.IntN(10) {
 	case 0: // unary rational
 		return Case{Op: fw.Pick(r, unaryRat), Args: []string{randRat(r)}}
@@ -258,6 +378,11 @@ func gen(r *rand.Rand, i int, tier string) Case {
 		op := fw.Pick(r, unaryInt)
 		if op == "isqrt" {
 			x.Abs(x)
+			if r.IntN(2) == 0 { // next to a perfect square
+				x.Mul(x, x)
+				x.Add(x, big.NewInt(int64(r.IntN(3)-1)))
+				x.Abs(x)
+			}
 		}
 		return Case{Op: op, Args: []string{x.String()}}
 	case 2: // integer binary / n-ary
@@ -268,8 +393,16 @@ func gen(r *rand.Rand, i int, tier string) Case {
 			n = 2
 		}
 		var args []string
+		var g *big.Int
+		if (op == "gcd" || op == "lcm") && r.IntN(2) == 0 {
+			g = randInt(r)
+		}
 		for k := 0; k < n; k++ {
-			args = append(args, randInt(r).String())
+			x := randInt(r)
+			if g != nil {
+				x.Mul(x, g)
+			}
+			args = append(args, x.String())
 		}
 		return Case{Op: op, Args: args}
 	case 3: // ash / expt
@@ -904,7 +1037,9 @@ func init() {
 	fw.Register(fw.Spec[Case]{
 		ID: "C05",
 		Rule: "operator x operand tuple; first block = every ordered pair of the 25-value boundary grid for every binary operator (exhaustive), " +
-			"then seeded tuples of integers up to 200 bits, ratios, and floats adjacent to grid integers; distinct = distinct (op,args); " +
+			"the float-comparison grid (each grid integer against 9 float neighbours in 3 formats), the canonical-form block (sums, products, quotients landing on ratio->integer and bignum->fixnum boundaries), " +
+			"the structured block (perfect squares +-1 for every root size 1..100 bits; dividends q*d+r with r around 0, d/2, d for quotients and divisors around 2^24..2^70; products landing on 2^24..2^65 +-1; integers around 2^24, 2^53, 10^15..10^22 against float neighbours; gcd/lcm with large common factors), " +
+			"then seeded tuples of integers up to 200 bits (isqrt half of the time next to a square, gcd/lcm half of the time with a common factor), ratios, and floats adjacent to grid integers; distinct = distinct (op,args); " +
 			"non-trivial = the property pins the result (exact operands or comparison)",
 		N:           nCases,
 		Gen:         gen,
